@@ -185,6 +185,7 @@ type item struct {
 	ID      string
 	Src     string
 	Expect  []exp
+	Fixture string // name of a shared fixture declaration (emitted once per file, before the first item that needs it)
 	Rich    bool   // needs a rich main
 	Class   string // verdict | writer | reader | group
 	Grouped bool   // a describe block: independence is not claimed for grouped tests
@@ -375,6 +376,13 @@ func init() {
 	w("w_table_set", true, recv, "", "  testing.table_set(tb1, \"k\", \"changed\");\n  assert.equal(table.lookup(tb1, \"k\", \"none\"), \"changed\");\n")
 	w("w_table_new", true, recv, "", "  testing.table_set(tb1, \"fresh\", \"v\");\n  assert.equal(table.lookup(tb1, \"fresh\", \"none\"), \"v\");\n")
 	w("w_table_merge", true, recv, "table w_tbl { \"k\": \"merged\", \"m\": \"1\" }\n", "  testing.table_merge(tb1, w_tbl);\n  assert.equal(table.lookup(tb1, \"k\", \"none\"), \"merged\");\n")
+	// merge a test-side table into the main table and then overwrite one merged key: the fixture itself must stay as declared
+	addItem(item{ID: "w_table_merge_then_set", Class: "writer", Rich: true, Fixture: "shared_tbl",
+		Src:    "// @scope: recv\nsub t_w_table_merge_then_set {\n  testing.table_merge(tb1, shared_tbl);\n  testing.table_set(tb1, \"region\", \"us\");\n  assert.equal(table.lookup(tb1, \"region\", \"none\"), \"us\");\n}\n",
+		Expect: []exp{{Name: "t_w_table_merge_then_set", Scope: "RECV", Verdict: "pass"}}})
+	addItem(item{ID: "r_table_merge", Class: "reader", Rich: true, Fixture: "shared_tbl",
+		Src:    "// @scope: recv\nsub t_r_table_merge {\n  testing.table_merge(tb1, shared_tbl);\n  assert.equal(table.lookup(tb1, \"region\", \"none\"), \"eu\");\n  assert.equal(table.lookup(tb1, \"mode\", \"none\"), \"staging\");\n  log \"region=\" table.lookup(tb1, \"region\", \"none\");\n}\n",
+		Expect: []exp{{Name: "t_r_table_merge", Scope: "RECV", Verdict: "pass"}}})
 	w("w_inject", false, recv, "", "  testing.inject_variable(\"client.geo.country_code\", \"ZZ\");\n  assert.equal(client.geo.country_code, \"ZZ\");\n")
 	w("w_inject_proto", false, recv, "", "  testing.inject_variable(\"req.protocol\", \"https\");\n  assert.true(req.is_ssl);\n")
 	w("w_mock", true, recv, "sub w_mock_helper {\n  set req.http.Helper = \"mocked\";\n}\n", "  testing.mock(\"helper\", \"w_mock_helper\");\n  testing.call_subroutine(\"vcl_recv\");\n  assert.equal(req.http.Helper, \"mocked\");\n")
@@ -526,6 +534,11 @@ describe g_mock {
 var fixtureCases = map[string][]exp{
 	"w_mock":    {{Name: "w_mock_helper", Scope: "RECV", Verdict: "pass"}},
 	"w_mock_fn": {{Name: "w_mock_fn", Scope: "RECV", Verdict: "pass"}},
+}
+
+// shared fixtures of the test file
+var sharedFixtures = map[string]string{
+	"shared_tbl": "table shared_tbl { \"mode\": \"staging\", \"region\": \"eu\" }\n",
 }
 
 func expected(it item) []exp {
